@@ -121,13 +121,34 @@ Definition lexical_self (st : state) (c : ctx) : res value :=
 
 Definition no_super : string := "super outside a class with a superclass".
 
-(* M: `super` is the value captured at class definition; the receiver of a super access is the enclosing method's
-   self.  old_super = true is the compiler BEFORE commit 0fbde2d (`s.compiler().locals[0]`: slot 0 of the RUNNING
-   frame, i.e. the nested closure itself inside a nested function); kept only for `eval_mech_eq_spec_refuted_old`. *)
-Definition super_receiver (old_super : bool) (st : state) (c : ctx) : res value :=
-  if old_super then Ok (c_slot0 c) else lexical_self st c.
+(* M: `super` is the value captured at class definition.  The receiver of a super access is the local that compiler.rs
+   `super_` names, resolved like any variable (local or captured upvalue).  Three shapes of `super_`:
+   - SuperEnclosingMethod (current source): the first non-empty `locals[0].name` walking the compiler stack outwards, i.e.
+     slot 0 (`self` / `Self`) of the nearest enclosing METHOD - what the Spec demands;
+   - SuperRunningFrame (before commit 0fbde2d): `s.compiler().locals[0]`, slot 0 of the running frame (the nested closure
+     itself inside a nested function);
+   - SuperAnyStaticSelf (a seeded variant): the name is "Self" when ANY enclosing compiler is a static method, else "self";
+     an enclosing static method is exactly one whose binding of `Self` is in the lexical environment, and the name is then
+     resolved lexically - for a class declared inside a static method of another class this is the OUTER method's `Self`.
+   The last two are kept only for the `_refuted_` witnesses; props/C07.v ties the choice to the source. *)
+Inductive super_mode := SuperEnclosingMethod | SuperRunningFrame | SuperAnyStaticSelf.
 
-Definition sem_mech_gen (old_super : bool) : sem := mkSem
+Definition super_mode_of_code (n : nat) : option super_mode :=
+  match n with 0 => Some SuperEnclosingMethod | 1 => Some SuperRunningFrame | 2 => Some SuperAnyStaticSelf | _ => None end.
+
+Definition super_receiver (m : super_mode) (st : state) (c : ctx) : res value :=
+  match m with
+  | SuperEnclosingMethod => lexical_self st c
+  | SuperRunningFrame => Ok (c_slot0 c)
+  | SuperAnyStaticSelf =>
+    let name := match assoc "Self" (c_env c) with Some _ => "Self" | None => "self" end in
+    match assoc name (c_env c) with
+    | Some a => match nth_error (cells st) a with Some v => Ok v | None => Stuck "dangling cell" end
+    | None => Stuck "super outside a method"
+    end
+  end.
+
+Definition sem_mech_gen (old_super : super_mode) : sem := mkSem
   (fun st recv n => get_property (world_of st) recv n)
   (fun st recv n argc => invoke (world_of st) recv n argc)
   (fun st c n => match c_super c with
@@ -146,8 +167,9 @@ Definition sem_mech_gen (old_super : bool) : sem := mkSem
                | _ => None
                end).
 
-Definition sem_mech : sem := sem_mech_gen false.
-Definition sem_mech_old : sem := sem_mech_gen true.
+Definition sem_mech : sem := sem_mech_gen SuperEnclosingMethod.
+Definition sem_mech_old : sem := sem_mech_gen SuperRunningFrame.
+Definition sem_mech_any_static : sem := sem_mech_gen SuperAnyStaticSelf.
 
 
 Definition spec_super_ctx {A} (st : state) (c : ctx) (k : nat -> value -> res A) : res A :=
@@ -516,6 +538,7 @@ Definition run (S : sem) (p : prog) : state * oc := ev S default_fuel ctx0 (TS p
 Definition eval_spec (p : prog) : state * oc := run sem_spec p.
 Definition eval_mech (p : prog) : state * oc := run sem_mech p.
 Definition eval_mech_old (p : prog) : state * oc := run sem_mech_old p.
+Definition eval_mech_any_static (p : prog) : state * oc := run sem_mech_any_static p.
 
 (* ---------- observable result as text ---------- *)
 Definition sep : string := "~".
@@ -702,7 +725,11 @@ Fixpoint render_stmt (ind : nat) (s : stmt) : list string :=
           end) ms
     +++ [pre ++ "}"]
   | SFun name ps b label =>
-    [pre ++ "fn " ++ name ++ "(" ++ render_params None ps ++ ") {"] +++ body (S ind) b +++ [pre ++ "}"]
+    (* label 1: the same closure written as a lambda bound to a variable (also FunctionKind::Function) *)
+    match label with
+    | 1 => [pre ++ "var " ++ name ++ " = |" ++ render_params None ps ++ "| {"] +++ body (S ind) b +++ [pre ++ "};"]
+    | _ => [pre ++ "fn " ++ name ++ "(" ++ render_params None ps ++ ") {"] +++ body (S ind) b +++ [pre ++ "}"]
+    end
   | SBlock b => [pre ++ "{"] +++ body (S ind) b +++ [pre ++ "}"]
   | STry b =>
     [pre ++ "try {"] +++ body (S ind) b
@@ -713,10 +740,14 @@ Definition render (p : prog) : list string := flat_map (render_stmt 0) p.
 Definition render_text (p : prog) : string := show_sep sep (fun x => x) (render p).
 
 (* one string per program for the correspondence check:
-   spec outcome | mech outcome | M's class tables | nontrivial | super in a nested function | source |
-   mech outcome of the metamorphic variant | its source *)
+   spec outcome @ mech outcome @ M's class tables @ nontrivial @ super in a nested function @ source @
+   mech outcome of the metamorphic variant @ its source   (`|` occurs in sources: lambdas) *)
+(* diagnosis of a disagreement: the outcomes under the other two shapes of `super_` *)
+Definition variant_case (p : prog) : string :=
+  show_outcome (eval_mech_old p) ++ "@" ++ show_outcome (eval_mech_any_static p).
+
 Definition run_case (p : prog) : string :=
   let m := eval_mech p in
-  show_outcome (eval_spec p) ++ "|" ++ show_outcome m ++ "|" ++ show_tables (fst m) ++ "|"
-  ++ show_bool (nontrivial (fst m)) ++ "|" ++ show_bool (nested_super p) ++ "|" ++ render_text p ++ "|"
-  ++ show_outcome (eval_mech (meta_prog p)) ++ "|" ++ render_text (meta_prog p).
+  show_outcome (eval_spec p) ++ "@" ++ show_outcome m ++ "@" ++ show_tables (fst m) ++ "@"
+  ++ show_bool (nontrivial (fst m)) ++ "@" ++ show_bool (nested_super p) ++ "@" ++ render_text p ++ "@"
+  ++ show_outcome (eval_mech (meta_prog p)) ++ "@" ++ render_text (meta_prog p).
